@@ -1,7 +1,11 @@
 """C19 - in-memory cache is transparent for every access history."""
-from vf.common import fail
+import copy
+import importlib
+
+from vf.common import fail, patched
 from vf.engine import Cond
 from kappadata.caching.shared_dict_dataset import SharedDictDataset
+SD_MOD = importlib.import_module("kappadata.caching.shared_dict_dataset")
 from kappadata.caching.cached_dataset import CachedDataset
 
 MANIFEST_LEVEL = "The solver decides every path of the real SharedDictDataset/CachedDataset accessors over symbolic access histories (gets and clears of enumerated length, symbolic indices) against a load-counting base dataset, and over symbolic interference of other processes (insertions of correct entries and clears between any two dict operations of one access). No unit test exists for this module."
@@ -16,9 +20,9 @@ ENCODED = [
     "kappadata.caching.cached_dataset:CachedDataset.__getattr__",
 ]
 STUBS = [
-    "Base: dataset of n samples returning ('s', i, payload_i) with symbolic payloads, counting loads per index",
+    "Base: dataset of n samples returning ('s', i, payload_i) with symbolic payloads (payload 0 = the sample is None), counting loads per index",
     "InterferenceDict: stands for the multiprocessing Manager dict; before each of its operations another process may insert a correct entry for an arbitrary key, or clear it (symbolic script)",
-    "SharedDictDataset is constructed with __new__ and its attributes set directly (no Manager process is spawned)",
+    "FakeManager: multiprocessing.Manager() replaced so that .dict() returns the harness dict (the real constructor runs, no Manager process is spawned); forked reader processes are shallow copies of the dataset object sharing that dict",
 ]
 ASSUMPTIONS = ["every single operation of the Manager dict proxy (contains / getitem / setitem / clear) is atomic; a missing key raises KeyError",
                "indices are valid non-negative dataset indices"]
@@ -39,7 +43,12 @@ class Base:
 
     def __getitem__(self, i):
         self.loads[i] += 1
-        return ("s", i, self.payload[i])
+        return sample_of(i, self.payload[i])
+
+
+def sample_of(i, p):
+    """payload 0 stands for a sample whose whole value is None (a legitimate, picklable payload)"""
+    return None if p == 0 else ("s", i, p)
 
 
 class CountingTransform:
@@ -51,21 +60,52 @@ class CountingTransform:
         return ("t", s)
 
 
+class FakeManager:
+    """multiprocessing.Manager() stand-in: .dict() hands out the dict object of the harness (the
+    real constructor runs; no Manager process is spawned)"""
+
+    def __init__(self, d):
+        self.d = d
+
+    def __call__(self):
+        return self
+
+    def dict(self):
+        return self.d
+
+
 def mk(base, transform, d):
-    c = SharedDictDataset.__new__(SharedDictDataset)
-    c.dataset = base
-    c.transform = transform
-    c.shared_dict = d
-    return c
+    with patched(SD_MOD, Manager=FakeManager(d)):
+        return SharedDictDataset(base, transform=transform)
+
+
+def fork_readers(c, k, d):
+    """k reader processes forked from the parent before any access: shallow copies that share the
+    Manager dict (a proxy to one server-side dict) and nothing else that is mutable"""
+    with patched(SD_MOD, Manager=FakeManager(d)):
+        return [copy.copy(c) for _ in range(k)]
 
 
 def body_seq(cfg, p0, p1, p2, p3, *ops):
     """sequential history. cfg = (n, L, with_transform); ops[k] = -1 clear, else index"""
-    n, L, with_t = cfg
+    n, L, with_t = cfg[:3]
+    nreaders = cfg[3] if len(cfg) > 3 else 1
     payload = [p0, p1, p2, p3][:n]
     base = Base(n, payload)
     t = CountingTransform() if with_t else None
-    c = mk(base, t, {})
+    loaded_since_clear = [False] * n
+    gets = 0
+    try:
+        shared = {}
+        with patched(SD_MOD, Manager=FakeManager(shared)):
+            c = SharedDictDataset(base, transform=t)
+            readers = [c] if nreaders == 1 else [copy.copy(c) for _ in range(nreaders)]
+            return _run_seq(c, readers, base, t, n, payload, ops, with_t)
+    except Exception as e:
+        return fail("exception " + type(e).__name__)
+
+
+def _run_seq(c, readers, base, t, n, payload, ops, with_t):
     loaded_since_clear = [False] * n
     gets = 0
     try:
@@ -73,7 +113,8 @@ def body_seq(cfg, p0, p1, p2, p3, *ops):
             return fail("len differs")
         if c.marker != ("attr-of-base", n):
             return fail("attribute delegation")
-        for o in ops:
+        for step, o in enumerate(ops):
+            c = readers[step % len(readers)]  # operation k is performed by reader process k mod #readers
             if o == -1:
                 c.dispose()
                 loaded_since_clear = [False] * n
@@ -81,7 +122,7 @@ def body_seq(cfg, p0, p1, p2, p3, *ops):
             before = base.loads[o]
             got = c[o]
             gets += 1
-            want = ("s", o, payload[o])
+            want = sample_of(o, payload[o])
             if with_t:
                 want = ("t", want)
             if got != want:
@@ -150,11 +191,11 @@ def body_shared(cfg, p0, p1, p2, *rest):
     idxs = rest[:acc]
     script = rest[acc:]
     base = Base(n, payload)
-    d = InterferenceDict(script, lambda k: ("s", k, payload[k]))
+    d = InterferenceDict(script, lambda k: sample_of(k, payload[k]))
     c = mk(base, None, d)
     try:
         for i in idxs:
-            if c[i] != ("s", i, payload[i]):
+            if c[i] != sample_of(i, payload[i]):
                 return fail("reader observed a value different from the wrapped dataset")
     except Exception as e:
         return fail("exception escapes under interference: " + type(e).__name__)
@@ -174,6 +215,12 @@ def conditions(tier, rng):
             for with_t in (False, True):
                 if q and with_t != (L % 2 == 1):
                     continue
+                if L >= 2 and (not q or with_t):
+                    conds.append(Cond(
+                        name=f"seq-2readers[n={n},L={L},transform={int(with_t)}]", harness=H, body="body_seq", cfg=(n, L, with_t, 2),
+                        params=[(f"p{k}", "int") for k in range(4)] + [(f"o{k}", "int") for k in range(L)],
+                        pre=[f"-1 <= o{k} < {n}" for k in range(L)], timeout=to, group="sequential-history-two-forked-readers", cost=(n + 1) ** L,
+                        bounds=f"{n} samples, {L} symbolic operations performed alternately by two reader processes forked before the first access"))
                 conds.append(Cond(
                     name=f"seq[n={n},L={L},transform={int(with_t)}]", harness=H, body="body_seq", cfg=(n, L, with_t),
                     params=[(f"p{k}", "int") for k in range(4)] + [(f"o{k}", "int") for k in range(L)],
